@@ -15,7 +15,11 @@
 #include <nano/loss.h>
 #include <nano/solver.h>
 #include <nano/wlearner.h>
+#include <nano/gboost/result.h>
+#include <nano/wlearner/single.h>
+#include <nano/wlearner/dtree.h>
 
+#include <array>
 #include <thread>
 
 using namespace nano;
@@ -309,7 +313,7 @@ struct data_t
     std::unique_ptr<dataset_t>            dataset;
 };
 
-data_t make_data(vrng& r, int target_kind, int64_t pool, int min_samples, int max_samples, bool structs, double missing)
+data_t make_data(vrng& r, int target_kind, int64_t pool, int min_samples, int max_samples, bool structs, double missing, double target_scale = 1.0)
 {
     vf::schema_opts_t o;
     o.min_features = 2;
@@ -321,6 +325,7 @@ data_t make_data(vrng& r, int target_kind, int64_t pool, int min_samples, int ma
     o.target_kind  = target_kind;
     data_t d;
     d.source = std::make_unique<vf::sim_datasource_t>(vf::random_schema(r, o), r.next(), missing, true, 0);
+    d.source->target_scale(target_scale);
     d.source->load();
     d.dataset = std::make_unique<dataset_t>(*d.source, static_cast<size_t>(pool));
     vf::add_identity_generators(*d.dataset);
@@ -665,11 +670,15 @@ void scenario_fit(ctx_t& c)
     const auto cores  = c.cfg.cores;
     // reference: the same fit with one core everywhere (all pools inline), same workload stream
     vrng       wl_ref = r, wl_sim = r;
+    const vrng wl_ref0 = r;
     r.next();
-    const auto run_fit = [&](vrng& wr, int ncores, int64_t npool, tensor4d_t& predictions, indices_t& features, tensor1d_t& optimum, std::string& what)
+    using history_t = std::vector<std::vector<std::array<double, 4>>>; // per fold of the optimum trial: per kept round (errors / losses)
+    history_t  hist_ref, hist_sim;
+    const auto run_fit = [&](vrng& wr, int ncores, int64_t npool, tensor4d_t& predictions, indices_t& features, tensor1d_t& optimum, std::string& what,
+                             history_t& history, double target_scale = 1.0)
     {
         simrt_set_cores(ncores);
-        auto       d       = make_data(wr, 1, npool, 30, 60, false, 0.0);
+        auto       d       = make_data(wr, 1, npool, 30, 60, false, 0.0, target_scale);
         const auto samples = arange(0, d.dataset->samples());
         const auto params  = fast_params(wr, folds, true);
         ml::result_t result;
@@ -685,6 +694,43 @@ void scenario_fit(ctx_t& c)
         if (const auto* gb = dynamic_cast<const gboost_model_t*>(fitted.model.get()))
         {
             features = gb->features();
+            for (tensor_size_t fold = 0; fold < result.folds(); ++fold)
+            {
+                history.emplace_back();
+                if (const auto* st = std::any_cast<gboost::result_t>(&result.extra(result.optimum_trial(), fold)))
+                {
+                    for (tensor_size_t round = 0; round < st->m_statistics.size<0>(); ++round)
+                    {
+                        history.back().push_back({st->m_statistics(round, 0), st->m_statistics(round, 1), st->m_statistics(round, 2), st->m_statistics(round, 3)});
+                    }
+                }
+            }
+            if (getenv("VERIF_DEBUG_LOG") != nullptr)
+            {
+                for (tensor_size_t fold = 0; fold < result.folds(); ++fold)
+                {
+                    const auto* st = std::any_cast<gboost::result_t>(&result.extra(result.optimum_trial(), fold));
+                    printf("DBG cores=%d fold=%d rounds=%d:", ncores, (int)fold, (int)st->m_statistics.size<0>() - 1);
+                    for (const auto& w : st->m_wlearners)
+                    {
+                        const auto f = w->features();
+                        printf(" %s(f%d", w->type_id().c_str(), f.size() > 0 ? (int)f(0) : -1);
+                        if (const auto* sw = dynamic_cast<const single_feature_wlearner_t*>(w.get()))
+                        {
+                            printf(",t0=%.17g", sw->tables().size() > 0 ? sw->tables()(0) : 0.0);
+                        }
+                        printf(")");
+                        if (const auto* dt = dynamic_cast<const dtree_wlearner_t*>(w.get()))
+                        {
+                            std::ostringstream o;
+                            o.precision(17);
+                            o << dt->nodes();
+                            printf(" nodes=%s", o.str().c_str());
+                        }
+                    }
+                    printf("\n");
+                }
+            }
         }
         if (result.trials() > 0)
         {
@@ -697,8 +743,86 @@ void scenario_fit(ctx_t& c)
     indices_t   feat_ref, feat_sim;
     tensor1d_t  opt_ref, opt_sim;
     std::string what;
-    run_fit(wl_ref, 1, 1, pred_ref, feat_ref, opt_ref, what);
-    run_fit(wl_sim, cores, pool, pred_sim, feat_sim, opt_sim, what);
+    run_fit(wl_ref, 1, 1, pred_ref, feat_ref, opt_ref, what, hist_ref);
+    run_fit(wl_sim, cores, pool, pred_sim, feat_sim, opt_sim, what, hist_sim);
+    // Diagnosis of a divergence (known finding F9): the two fits agree round by round until a boosting round that improves the
+    // training loss by less than rounding noise (typically after a categorical feature has been fitted exactly, so that every
+    // remaining candidate scores the same up to 1e-16). Which candidate wins such a round is decided by the re-association noise
+    // of the scale step, and the models go different ways from there. Only THIS history is classified as the known finding.
+    const auto same_fit = [&](const tensor4d_t& pa, const indices_t& fa, const tensor4d_t& pb, const indices_t& fb, double rel)
+    {
+        if (fa.size() != fb.size() || !std::equal(std::begin(fa), std::end(fa), std::begin(fb)) || pa.size() != pb.size())
+        {
+            return false;
+        }
+        double scale = 1e-12;
+        for (tensor_size_t i = 0; i < pa.size(); ++i)
+        {
+            scale = std::max(scale, std::fabs(pa(i)));
+        }
+        for (tensor_size_t i = 0; i < pa.size(); ++i)
+        {
+            if (std::fabs(pa(i) - pb(i)) > rel * scale)
+            {
+                return false;
+            }
+        }
+        return true;
+    };
+    // Second diagnosis, more general: is the ONE-CORE fit itself stable? The same fit is repeated on one core with the targets
+    // multiplied by 1 +- 1e-13 and 1 +- 1e-11 (far below anything a user could mean, far above the 1e-16 re-association noise of
+    // the parallel reductions). If such a perturbation already changes the selected features or the predictions, some decision
+    // of this fit (a weak learner, a threshold, a stopping round) sits on a numerical near-tie, and a dependence on the thread
+    // count there is the known finding F9, not a new one.
+    const auto numerically_unstable = [&]()
+    {
+        for (const double eps : {1e-13, -1e-13, 1e-11, -1e-11})
+        {
+            vrng        wl = wl_ref0;
+            tensor4d_t  p;
+            indices_t   f;
+            tensor1d_t  o;
+            std::string w;
+            history_t   h;
+            run_fit(wl, 1, 1, p, f, o, w, h, 1.0 + eps);
+            if (!same_fit(pred_ref, feat_ref, p, f, 1e-6))
+            {
+                c.probe("one_core_fit_unstable_under_1e-11_perturbation");
+                return true;
+            }
+        }
+        return false;
+    };
+    const auto noise_level_divergence = [&]()
+    {
+        if (numerically_unstable())
+        {
+            return true;
+        }
+        for (size_t fold = 0; fold < hist_ref.size() && fold < hist_sim.size(); ++fold)
+        {
+            const auto& a = hist_ref[fold];
+            const auto& b = hist_sim[fold];
+            size_t      r = 0;
+            while (r < a.size() && r < b.size() && vf::close(a[r][1], b[r][1], 1e-9, 1e-12) && vf::close(a[r][3], b[r][3], 1e-9, 1e-12))
+            {
+                ++r;
+            }
+            if (r == a.size() && r == b.size())
+            {
+                continue; // this fold agrees
+            }
+            // first differing round r: did either fit make a noise-level step there (or just before)?
+            const auto tiny = [&](const std::vector<std::array<double, 4>>& h, size_t k)
+            { return k >= 1 && k < h.size() && std::fabs(h[k][1] - h[k - 1][1]) <= 1e-9 * std::max(1e-3, std::fabs(h[k - 1][1])); };
+            if (tiny(a, r) || tiny(b, r) || tiny(a, r + 1) || tiny(b, r + 1))
+            {
+                return true;
+            }
+            return false;
+        }
+        return false;
+    };
     c.sample = "fit " + what + " cores=" + std::to_string(cores) + " pool=" + std::to_string(pool) + " folds=" + std::to_string(folds) +
                " batch=" + std::to_string(batch) + " vs one core";
     // agreement up to floating-point re-association
@@ -716,7 +840,7 @@ void scenario_fit(ctx_t& c)
             o << f << " ";
         }
         o << "}";
-        c.fail("fit-features-differ", o.str());
+        c.fail(noise_level_divergence() ? "fit-differs-at-numerical-near-tie" : "fit-features-differ", o.str());
     }
     else if (pred_ref.size() != pred_sim.size())
     {
@@ -735,7 +859,8 @@ void scenario_fit(ctx_t& c)
             // re-association noise (never stricter than the statement: a looser bound cannot raise a false alarm)
             if (std::fabs(pred_ref(i) - pred_sim(i)) > (which < 4 ? 1e-4 : 1e-5) * scale)
             {
-                c.fail("fit-predictions-differ", what + ": predictions differ by " + std::to_string(std::fabs(pred_ref(i) - pred_sim(i)) / scale) +
+                c.fail(noise_level_divergence() ? "fit-differs-at-numerical-near-tie" : "fit-predictions-differ",
+                       what + ": predictions differ by " + std::to_string(std::fabs(pred_ref(i) - pred_sim(i)) / scale) +
                                                      " relative between one core and " + std::to_string(cores) + " cores");
                 break;
             }
